@@ -1,7 +1,7 @@
 (* C22  Connection event timing and supervision follow the connection parameters.  Statements only; proofs in LL/LLProofs.v. *)
 From Coq Require Import String.
 From BT Require Import Base.ListX LL.LLModel LL.LLSpec LL.LLSpecC22 LL.LLProofs LL.LLProofsC22Sim.
-From BT Require gen.GenLL ChanMap.ChanMapModel.
+From BT Require gen.GenLL ChanMap.ChanMapModel LL.LLSpecC21.
 Import ListNotations.
 Local Open Scope N_scope.
 
@@ -100,29 +100,42 @@ Definition C22_monitor_accepts_all_full : Prop := monitor22_accepts_all.
 (* PROVED for operation sequences of any length inside the environment [env22] - the quantifier of the property and more:
    any connect requests (valid, invalid, not addressed to us), any pattern of connection events of the central (any event
    flags) and of missed events up to and beyond the supervision timeout, restarts of advertising, transmit buffer
-   operations, every configuration with an own sleep clock accuracy <= 500 ppm; the events may be empty (every
-   configuration) or - for a link layer without encryption support - carry any number of CONTROL PDUs THAT DO NOT TOUCH
-   THE TIMING: LLID 3, not empty, at most 27 bytes, no instant (not a well formed LL_CONNECTION_UPDATE_IND /
-   LL_CHANNEL_MAP_IND / LL_PHY_UPDATE_IND) and not LL_TERMINATE_IND - i.e. feature / version / ping / length /
-   connection parameter requests, LL_UNKNOWN_RSP / LL_REJECT(_EXT)_IND, unknown opcodes, malformed PDUs of any opcode
-   (executable: pdu_ok22).  The environment is an executable predicate computed along the model's run: op_ok22 on each
-   operation, no model crash, and calm22 = nothing is left in the receive queue after the operation (a control PDU stays
-   there while the script withholds the transmit buffer: such steps are outside).
-   OUTSIDE, exactly: (1) PDUs with an instant - LL_CONNECTION_UPDATE_IND (the monitor's applied_update / PBlind arithmetic
-   is tested on every run, not proved), LL_CHANNEL_MAP_IND, LL_PHY_UPDATE_IND; (2) LL_TERMINATE_IND; (3) data PDUs (LLID 1 / 2)
-   and PDUs inside events of a link layer with encryption support; (4) events that leave a PDU in the receive queue;
-   (5) the API calls (disconnect, connection parameter update / request, PHY update, version request, cancelation).
-   The proof is a simulation: LLProofsC22Sim.Sim22 couples the monitor's parameters, anchor time and counter of missed
-   events with the model's state; sim22_step is the step lemma; neutral_event is the event with such PDUs (it reuses
-   ll-c21's LLSimC21.radio_event_spec, hlc_other / ctlk / ctlq and this file's hrd_neutral, tail22). *)
+   operations, every configuration with an own sleep clock accuracy <= 500 ppm.  The events may be empty (every
+   configuration) or - for a link layer without encryption support - carry
+     * any number of CONTROL PDUs THAT DO NOT TOUCH THE TIMING (pdu_ok22): LLID 3, not empty, at most 27 bytes, no instant
+       and not LL_TERMINATE_IND - feature / version / ping / length / connection parameter requests, LL_UNKNOWN_RSP /
+       LL_REJECT(_EXT)_IND, unknown opcodes, malformed PDUs of any opcode; or
+     * one LL_CONNECTION_UPDATE_IND (upd_ok22: any window, interval, latency, timeout, instant; with connection callbacks,
+       without them its application is not observable and the monitor stops judging).  The update is deferred, waits
+       through any number of events and missed events, and IS APPLIED AT ITS INSTANT: the event there is scheduled k old
+       intervals after the anchor, 1 <= k <= latency + 1, with the NEW interval, its window covers the update's TRANSMIT
+       WINDOW (offset, size) widened by the combined accuracy - the monitor finds it with search_k, identifies the update
+       by applied_update and consumes it - then the connection continues with the new parameters (monitor phase PBlind
+       until the next packet), and further updates may follow.
+   The environment is an executable predicate computed along the model's run: op_ok22 on each operation, no model crash,
+   calm22 = nothing is left in the receive queue after the operation, still22 = an update that is delivered or waiting
+   either still waits afterwards or was applied by a connection event.
+   OUTSIDE, exactly: (1) a delivered update that is REFUSED (instant passed or instant = next event: the link is
+   dropped with 0x28), an update whose parameters are found invalid at its instant (link dropped), an instant that falls
+   on a MISSED event (timeout(); the monitor has a branch for it, not proved), PDUs delivered while an update waits (they
+   stay in the receive queue: calm22), a control PDU held back because the script withholds the transmit buffer;
+   (2) LL_CHANNEL_MAP_IND, LL_PHY_UPDATE_IND (instants of C21), LL_TERMINATE_IND; (3) data PDUs (LLID 1 / 2) and PDUs inside
+   events of a link layer with encryption support; (4) the API calls (disconnect, connection parameter update / request,
+   PHY update, version request, cancelation).
+   The proof is a simulation: LLProofsC22Sim.Sim22 couples the monitor's parameters, anchor time, counter of missed events
+   and list of outstanding updates with the model's state (the deferred PDU); sim22_step is the step lemma; neutral_event
+   is the event with PDUs, instant_event the event at the instant (tail22_apply: planning + handle_pending_ll_control +
+   window_covers with the new transmit window).  Reused from ll-c21: LLSimC21.radio_event_spec, hlc_other / ctlk / ctlq,
+   accept_full (an update with an instant ahead is only stored). *)
 Theorem C22_monitor_accepts_partial :
   forall c ops, cfg_ok22 c = true -> env22 c (linit c) ops = true -> accepts22 c (trace_of c ops).
 Proof. exact monitor22_accepts_partial. Qed.
 Print Assumptions C22_monitor_accepts_partial.
 Theorem C22_simulation_step :
   forall c s p o s' r,
-    cfg_ok22 c = true -> Sim22 s p -> op_ok22 c o = true -> lstep c s o = (s', r) -> r <> OCrash -> calm22 s' = true ->
-    exists p', mstep22 c p o r = (Ok, p') /\ Sim22 s' p'.
+    cfg_ok22 c = true -> Sim22 c s p -> op_ok22 c o = true -> lstep c s o = (s', r) -> r <> OCrash -> calm22 s' = true ->
+    still22 s o s' = true ->
+    exists p', mstep22 c p o r = (Ok, p') /\ Sim22 c s' p'.
 Proof. exact sim22_step. Qed.
 (* The two model lemmas behind events with PDUs: without encryption support, a receive
    queue of control PDUs that carry no instant and are not LL_TERMINATE_IND (feature / version / ping / unknown / reject /
@@ -142,8 +155,9 @@ Proof. exact hrd_neutral. Qed.
 Print Assumptions C22_pdus_without_instant_leave_the_timing.
 Theorem C22_next_event_after_processing :
   forall c s3 e s8 it8,
-    tw_size (tm s3) = 0 -> timing_inv (tm s3) (sca s3) -> proc_timeout s3 = 0 -> enc_prog (sc s3) = false -> deferred s3 = None ->
+    tw_size (tm s3) = 0 -> timing_inv (tm s3) (sca s3) -> proc_timeout s3 = 0 -> enc_prog (sc s3) = false ->
     end_event_continue c s3 e = Some (s8, it8) ->
+    (deferred s3 <> None /\ deferred s8 = None) \/
     exists k kk ch ws we,
       it8 = [ICe ch ws we (interval (tm s3))] /\ s8 = set_pending_event (set_cs s3 kk) true
       /\ 1 <= k /\ k <= latency (tm s3) + 1 /\ tsle kk = k * interval (tm s3) /\ ws + we = 2 * tsle kk
@@ -155,6 +169,38 @@ Proof. exact tail22. Qed.
 Example C22_environment_with_pdus_is_satisfiable :
   c_enc cfg_base = false /\ env22 cfg_base (linit cfg_base) session22_pdus = true.
 Proof. exact session22_pdus_env. Qed.
+(* the connection event at the instant of a waiting LL_CONNECTION_UPDATE_IND, on the model: the update's parameters are the
+   valid ones (else the link layer would not be in state connection_changed), connection_changed reports them, the event
+   is scheduled k OLD intervals after the anchor with the NEW interval and its window covers the update's transmit window
+   [k * interval + offset, k * interval + offset + size] widened by the combined accuracy; nothing is deferred afterwards *)
+Theorem C22_event_at_the_instant :
+  forall c s e pdus s' r b,
+  st s = Connected -> base22 s -> Glob s -> tw_size (tm s) = 0 ->
+  existsb (fun p => 27 <? N.of_nat (length (snd p))) pdus = false ->
+  deferred s = Some b -> byte b 0 = 0 -> c_cb c = true ->
+  lstep c s (Ev e pdus) = (s', r) -> r <> OCrash -> rxq (bf s') = [] -> st s' = ConnChanged ->
+  exists t k ch ws we pre d,
+    parse_update b = (t, Some true)
+    /\ r = OItems (pre ++ ICe ch ws we (interval t) :: map ICb [EvChanged d])
+    /\ forallb q22 pre = true
+    /\ d_interval d = rd16 b 4 /\ d_latency d = rd16 b 6 /\ d_timeout d = rd16 b 8
+    /\ 1 <= k /\ k <= latency (tm s) + 1
+    /\ covers (sca s) ws we (k * interval (tm s) + tw_off t) (k * interval (tm s) + (tw_off t + tw_size t)) = true
+    /\ tm s' = t /\ sca s' = sca s /\ base22 s' /\ Glob s' /\ deferred s' = None
+    /\ LLSpecC21.normalise21 pdus = [] /\ 1250 <= tw_size t.
+Proof. exact instant_event. Qed.
+Print Assumptions C22_event_at_the_instant.
+
+Example C22_environment_with_a_waiting_update_is_satisfiable :
+  env22 cfg_base (linit cfg_base) session22_update_waiting = true
+  /\ deferred (lfinal cfg_base (linit cfg_base) session22_update_waiting) = Some (snd (upd_pdu 2 3 80 0 200 30)).
+Proof. exact session22_update_waiting_env. Qed.
+Example C22_environment_with_applied_updates_is_satisfiable :
+  env22 cfg_base (linit cfg_base) session22_update_applied = true
+  /\ interval (tm (lfinal cfg_base (linit cfg_base) session22_update_applied)) = 100000
+  /\ deferred (lfinal cfg_base (linit cfg_base) session22_update_applied) = None
+  /\ (exists it d, nth_error (trace_of cfg_base session22_update_applied) 7 = Some (Ev 0 [], OItems it) /\ In (ICb (EvChanged d)) it).
+Proof. exact session22_update_applied_env. Qed.
 Example C22_environment_is_satisfiable :
   cfg_ok22 cfg_base = true /\ env22 cfg_base (linit cfg_base) session22_ok = true.
 Proof. split; vm_compute; reflexivity. Qed.
